@@ -48,9 +48,32 @@ def run(ctx):
         is_dd = ("a", '((*%s).arg_ == "--")' % it)
         # sanity: the engine's is_value atom is what user_input::is_value means
         iv = prog.fn(UI + "::is_value() const")
-        if iv is None or lg.fn_formula(iv, {"this": None, "params": {}}) != Not(("a", "(this.name_[0] == '-')")):
-            ctx.broken("R12.1", UI + "::is_value", "predicate-shape", "user_input::is_value() is no longer `name_[0] != '-'`; slot table out of date", "-")
+        ivf = lg.fn_formula(iv, {"this": None, "params": {}}) if iv is not None and iv.has_cfg else None
+        if ivf is None:
+            ctx.broken("R12.1", UI + "::is_value", "predicate-shape", "user_input::is_value() is not a loop-free predicate", "-")
             return
+        # is_value() must mean exactly "does not start with a dash" (the empty name included: name_[0] is then the
+        # terminator): front() and [0] are the same character
+        def ren(f0):
+            if f0[0] == "a":
+                return ("a", f0[1].replace("this.name_.front()", "this.name_[0]").replace("this.name_.at(0)", "this.name_[0]"))
+            if f0[0] == "n":
+                return Not(ren(f0[1]))
+            if f0[0] in "&|":
+                return (And if f0[0] == "&" else Or)(ren(f0[1]), ren(f0[2]))
+            return f0
+        ivn = ren(ivf)
+        dash = ("a", "(this.name_[0] == '-')")
+        sound, _ = logic.entails([ivn], Not(dash), lg.axioms)
+        complete, cm = logic.entails([Not(dash)], ivn, lg.axioms)
+        if not sound:
+            ctx.bad("R12.1", iv, "value-tokens-are-dashless", "is_value() (%s) can be true for a token that starts with `-`: option-like tokens would be taken as positionals" % logic.show(ivf), iv)
+            return
+        if not complete:
+            ctx.bad("R12.1", iv, "every-dashless-token-is-a-value", "is_value() (%s) is false for some token that does not start with `-` (%s): such a token is neither a value nor option-like, "
+                    "so it is rejected instead of becoming a positional" % (logic.show(ivf), {k: v for k, v in (cm or {}).items()}), iv)
+            return
+        ctx.ok("R12.1", iv, "is_value-means-dashless", logic.show(ivf), iv)
         paths = pl.iteration_paths()
         ctx.need("R12.1", "iteration path classes of the token loop", len(paths), 5)
         app_elems = {id(a[2]) for a in pl.appends}
@@ -247,6 +270,32 @@ def run(ctx):
                     ctx.check(sgn in seen_signs, "R12.5", g, "sign-reaches-access:" + sgn, "no path with a %s index reaches the access" % ("negative" if sgn == "neg" else "non-negative"), g)
         ctx.check(len(ats) >= 1 and not raw, "R12.5", g, "range-checked-access", "positionals are accessed with unchecked operator[]: an index outside [-n, n) reads out of bounds instead of raising", g)
 
+    # ---- R12.7: the accepted count and the greedy switch are independent settings
+    ctx.rule("R12.7", "who-may-write: the accepted count is set only by accept_positionals(), the greedy switch only by greedy_postionals() (neither setting changes the other)")
+    SETTERS = {NS + "parser::allowed_positionals_": "accept_positionals", NS + "parser::greedy_positionals_": "greedy_postionals"}
+    pcls = prog.cls(NS + "parser")
+    have = {fl["qual"] for fl in pcls["fields"]} if pcls else set()
+    if ctx.anchor("R12.7", NS + "parser", pcls is not None and set(SETTERS) <= have):
+        nset = 0
+        for f in prog.methods_of(NS + "parser"):
+            if not f.has_cfg:
+                continue
+            # direct writes and writes through calls of the *other* setter
+            reach = {f.id} | {t for t in cg.reachable([f.id]) if t.startswith(NS + "parser::")}
+            for fq, setter in SETTERS.items():
+                writers = [g for g in (prog.fn(t) for t in reach) if g is not None and g.has_cfg and any(w[0] == fq and w[1] == "this" for w in cg.field_writes(g))]
+                if not writers:
+                    continue
+                if f.name == setter:
+                    nset += 1
+                    ctx.ok("R12.7", f, "setter:" + short(fq), "%s writes %s" % (f.name, short(fq)), f)
+                    continue
+                if f.kind in ("ctor", "dtor") or f.flags.get("move_assign") or f.flags.get("copy_assign") or f.name in ("swap",):
+                    continue
+                ctx.bad("R12.7", f, "foreign-writer:%s" % short(fq),
+                        "%s changes %s (through %s): %s, so a parser configured with one setting silently gets another accepted count / mode"
+                        % (short(f.qual), short(fq), ", ".join(sorted(short(g.qual) for g in writers)), "only %s() may set it" % setter), f)
+        ctx.need("R12.7", "setters of the positional settings", nset, 2)
     # ---- R12.6
     pa = prog.fn(PARSE_ARGV)
     if ctx.anchor("R12.6", PARSE_ARGV, pa is not None and pa.has_cfg):
